@@ -197,18 +197,20 @@ def not (i : I64) : IntV := .small (~~~i)
 def rshCore (i o : I64) : Res :=
   if BitVec.slt o 0#64 then .val (.small 0#64) else .val (.small (BitVec.sshiftRight i o.toNat))
 
+/-- the test `other <= bitsize && !((i < 0 && comp != -1) || (i > 0 && comp != 0))` of
+`leftBitshiftSmallInt`, `comp := i >> (bitsize - other)` -/
+def lshInWord (i o : I64) : Bool :=
+  if BitVec.sle o 63#64 then
+    let comp := BitVec.sshiftRight i (63#64 - o).toNat
+    !((BitVec.slt i 0#64 && comp != -1#64) || (BitVec.slt 0#64 i && comp != 0#64))
+  else false
+
 /-- `leftBitshiftSmallInt[SmallInt]`: counts up to 63 stay in a word when the complementary
 shift shows that only sign bits are shifted out; everything else goes through `big.Int.Lsh`
 and `Normalize` -/
 def lshCore (i o : I64) : Res :=
   if BitVec.slt o 0#64 then .val (.small 0#64)
-  else
-    let inWord :=
-      if BitVec.sle o 63#64 then
-        let comp := BitVec.sshiftRight i (63#64 - o).toNat
-        !((BitVec.slt i 0#64 && comp != -1#64) || (BitVec.slt 0#64 i && comp != 0#64))
-      else false
-    if inWord then .val (.small (i <<< o.toNat)) else .val (ofBig (i.toInt <<< o.toNat))
+  else if lshInWord i o then .val (.small (i <<< o.toNat)) else .val (ofBig (i.toInt <<< o.toNat))
 
 /-- `SmallInt.LeftBitshiftSmallInt` -/
 def lshSmall (i o : I64) : Res :=
